@@ -94,34 +94,67 @@ Theorem C16_assign_parameters_sound :
     Qsum (map snd ps) == Qsum (map (fun z => half QA z) fc2).
 Proof. exact assign_parameters_sound. Qed.
 
-(* FULL STATEMENT (does not hold for main.non_trivial as coded, finding F4):
-     forall lig rs, NoDup (map pa_id (all_atoms rs)) -> transfer_only_ligand lig rs
-   i.e. (1) atom lines outside the ligand residue carry force-field parameters,
-   (2) no atom is written twice, (3) ligand atoms named in the MOL2 file are
-   written with the MOL2 parameters.  The loop matches by atom NAME on every
-   residue up to its first ATOM-typed atom, so a water H1 / another hetero group
-   sharing a name with a ligand atom takes the ligand's (charge, radius) and is
-   appended to the output a second time. *)
-Theorem C16_transfer_only_ligand_refuted :
-  exists (lig : list (string * (Z * Z))) (rs : list (presidue (Z * Z))),
+(* The ligand loop of main.non_trivial AS CODED NOW (after the repair of finding
+   C16-F4), for ALL residue lists, MOL2 residue names [lnames], MOL2 heavy-atom
+   names [heavy], MOL2 atoms [lig] and force-field outcomes (hit or miss, on
+   ligand atoms too).  [names] = the residue names the code selects
+   ([lig_names]: the MOL2 residue names if some residue of the structure
+   carries one, otherwise the names of the residues that consist of exactly the
+   MOL2 file's heavy atoms plus any of its hydrogens).  Then
+   (1) every written atom outside the selected residues carries the force
+       field's parameters (waters, ions, other hetero groups are never touched,
+       whatever their atoms are called),
+   (2) no atom is written twice,
+   (3) every atom of a selected residue (up to its first ATOM record) that the
+       MOL2 file names is written with the MOL2 parameters, exactly once. *)
+Theorem C16_transfer_only_ligand :
+  forall (P : Type) (lnames heavy : list string) (lig : list (string * P)) (rs : list (presidue P)),
+  NoDup (map pa_id (all_atoms rs)) ->
+  let names := lig_names lnames heavy lig rs in
+  (forall i w, ~ In i (ligand_ids names rs) -> In (i, w) (written lnames heavy lig rs) -> w = ff_param rs i) /\
+  NoDup (map fst (written lnames heavy lig rs)) /\
+  (forall r a p, In r rs -> selected names r = true -> In a (het_prefix (pr_atoms r)) ->
+                 lookup (pa_name a) lig = Some p ->
+                 In (pa_id a, Some p) (written lnames heavy lig rs) /\
+                 count_occ Nat.eq_dec (map fst (written lnames heavy lig rs)) (pa_id a) = 1%nat).
+Proof. intros P lnames heavy lig rs Hnd. exact (transfer_only_ligand_holds lig lnames heavy rs Hnd). Qed.
+
+(* the selection, spelled out.  If the MOL2 residue name occurs in the
+   structure, every atom of a residue with another name is written with exactly
+   what the force field gave it ... *)
+Theorem C16_transfer_other_residues_untouched :
+  forall (P : Type) (lnames heavy : list string) (lig : list (string * P)) (rs : list (presidue P))
+         (r : presidue P) (a : patom P) (w : option P),
+  NoDup (map pa_id (all_atoms rs)) ->
+  existsb (fun r : presidue P => smem (pr_name r) lnames) rs = true ->
+  In r rs -> ~ In (pr_name r) lnames -> In a (pr_atoms r) ->
+  In (pa_id a, w) (written lnames heavy lig rs) -> w = pa_ff a.
+Proof. intros P lnames heavy lig. exact (other_residues_untouched lig lnames heavy). Qed.
+
+(* ... and if it does not (placeholder residue name in the MOL2 file), so is
+   every residue unless it bears the name of a residue that the MOL2 file
+   describes atom by atom *)
+Theorem C16_transfer_other_residues_untouched_fallback :
+  forall (P : Type) (lnames heavy : list string) (lig : list (string * P)) (rs : list (presidue P))
+         (r : presidue P) (a : patom P) (w : option P),
+  NoDup (map pa_id (all_atoms rs)) ->
+  existsb (fun r : presidue P => smem (pr_name r) lnames) rs = false ->
+  In r rs ->
+  (forall r' : presidue P, In r' rs -> pr_name r' = pr_name r -> describes heavy lig r' = false) ->
+  In a (pr_atoms r) ->
+  In (pa_id a, w) (written lnames heavy lig rs) -> w = pa_ff a.
+Proof. intros P lnames heavy lig. exact (other_residues_untouched_fallback lig lnames heavy). Qed.
+
+(* PRE-FIX CODE ONLY.  [written_old] is the loop as it was before the repair of
+   C16-F4 (every HETATM-led residue visited, every matched atom appended); it is
+   NOT the code as it is.  Witness: water H1 vs ligand H1 - a non-ligand atom is
+   written with the ligand's parameters, and written twice. *)
+Theorem C16_transfer_old_loop_refuted :
+  exists (lnames : list string) (lig : list (string * (Z * Z))) (rs : list (presidue (Z * Z))),
     NoDup (map pa_id (all_atoms rs)) /\
-    (exists i w, ~ In i (ligand_ids rs) /\ In (i, w) (written lig rs) /\ w <> ff_param rs i) /\
-    ~ NoDup (map fst (written lig rs)).
-Proof. exact transfer_only_ligand_refuted. Qed.
-
-(* ... and it holds under the guard: no atom looked at outside the ligand
-   residue has a name that occurs in the MOL2 file, and the force field has no
-   parameters for the ligand's own atoms *)
-Theorem C16_transfer_only_ligand_partial :
-  forall (P : Type) (lig : list (string * P)) (rs : list (presidue P)),
-  NoDup (map pa_id (all_atoms rs)) -> guard lig rs = true -> transfer_only_ligand lig rs.
-Proof. exact @transfer_only_ligand_partial. Qed.
-
-(* the guard is exact: whenever it is false the property fails *)
-Theorem C16_transfer_guard_exact :
-  forall (P : Type) (lig : list (string * P)) (rs : list (presidue P)),
-  NoDup (map pa_id (all_atoms rs)) -> transfer_only_ligand lig rs -> guard lig rs = true.
-Proof. exact @transfer_guard_exact. Qed.
+    (exists i w, ~ In i (ligand_ids lnames rs) /\ In (i, w) (written_old lig rs) /\ w <> ff_param rs i) /\
+    ~ NoDup (map fst (written_old lig rs)).
+Proof. exact transfer_old_loop_refuted. Qed.
 
 (* Mol2Atom.formal_charge (all decision rules, including the order-dependent
    phosphate rule, which walks BOND lines, not atoms) does not depend on the
@@ -139,8 +172,8 @@ Proof. exact formal_charge_equivariant. Qed.
 (* non-vacuity: acetate (tests/data/acetate.mol2: O.co2=C.2(=O.co2)-C.3H3) is
    accepted, has formal charges 0,0,-1/2,-1/2 (doubled: -1), after two cycles
    every atom carries a non-zero charge and they sum to -1; a 3-cycle of the
-   positions satisfies the permutation hypotheses; the guard is true on a
-   complex with a water whose names do not clash and false on the F4 witness *)
+   positions satisfies the permutation hypotheses; the transfer loop on the
+   former F4 witness (name match, placeholder name, force-field hit on a ligand atom) *)
 Example C16_nonvacuous :
   let m := mkmol ["O.co2"; "C.2"; "O.co2"; "C.3"; "H"; "H"; "H"]%string
                  [(0, 1, Double); (1, 2, Double); (1, 3, Single); (3, 4, Single);
@@ -158,15 +191,24 @@ Example C16_nonvacuous :
   formal_charges2 (mkmol ["P.3"; "O.2"; "O.3"; "O.3"; "O.3"]%string
                          [(0, 1, Double); (3, 0, Single); (0, 2, Single); (0, 4, Single)]%nat)
     = Some [0; 0; 0; -2; 0]%Z /\
-  guard f4_lig [ mkpres true [mkpatom 2 true "C1" None; mkpatom 3 true "H1" None];
-                 mkpres false [mkpatom 4 true "O" (Some (-8340, 17683)%Z);
-                               mkpatom 5 true "H1W" (Some (4170, 0)%Z)] ]%string = true /\
-  guard f4_lig f4_complex = false.
+  (* the F4 witness through the loop as coded now: the water keeps the force
+     field's parameters and is written once, the ligand gets the MOL2's *)
+  written ["LIG"%string] ["C1"%string] f4_lig f4_complex =
+    [(0%nat, Some (-4157, 18240)%Z); (1%nat, Some (337, 19080)%Z); (4%nat, Some (-8340, 17683)%Z);
+     (5%nat, Some (4170, 0)%Z); (6%nat, Some (4170, 0)%Z);
+     (2%nat, Some (-1200, 18700)%Z); (3%nat, Some (650, 11000)%Z)] /\
+  (* placeholder residue name in the MOL2 file: the ligand is found by its atoms, same result *)
+  written ["UNK"%string] ["C1"%string] f4_lig f4_complex = written ["LIG"%string] ["C1"%string] f4_lig f4_complex /\
+  (* a ligand atom the force field already matched is overwritten but not appended again *)
+  written ["LIG"%string] ["C1"%string] f4_lig
+          [mkpres "LIG"%string [mkpatom 2%nat true "C1"%string (Some (1, 2)%Z); mkpatom 3%nat true "H1"%string None]]
+    = [(2%nat, Some (-1200, 18700)%Z); (3%nat, Some (650, 11000)%Z)].
 Proof.
   cbv zeta. split; [vm_compute; reflexivity|]. split; [vm_compute; reflexivity|].
   split.
   - eexists. split; [reflexivity|]. split; vm_compute; reflexivity.
-  - split; [split; vm_compute; reflexivity|]. split; [vm_compute; reflexivity|]. split; vm_compute; reflexivity.
+  - split; [split; vm_compute; reflexivity|]. split; [vm_compute; reflexivity|].
+    split; [vm_compute; reflexivity|]. split; vm_compute; reflexivity.
 Qed.
 
 Print Assumptions C16_QA_laws.
@@ -176,8 +218,9 @@ Print Assumptions C16_peoe_equivariant.
 Print Assumptions C16_radius_positive.
 Print Assumptions C16_supported_complete.
 Print Assumptions C16_assign_parameters_sound.
-Print Assumptions C16_transfer_only_ligand_refuted.
-Print Assumptions C16_transfer_only_ligand_partial.
-Print Assumptions C16_transfer_guard_exact.
+Print Assumptions C16_transfer_only_ligand.
+Print Assumptions C16_transfer_other_residues_untouched.
+Print Assumptions C16_transfer_other_residues_untouched_fallback.
+Print Assumptions C16_transfer_old_loop_refuted.
 Print Assumptions C16_formal_charge_equivariant.
 Print Assumptions C16_nonvacuous.
